@@ -4,8 +4,9 @@
   tools/seeded.py verify <dir with patch.diff, demo.py>     -> demo passes clean / fails patched; baseline tests
   tools/seeded.py run <ID[,ID]> <dir> [--tier quick]        -> apply to /repo, run ./check, undo
 
-`verify` works in a throw-away copy of /repo's working tree (never in /repo); `run` applies the patch to /repo
-itself (git apply) and always undoes it (git checkout -- .) afterwards.
+`verify` works in a throw-away copy of /repo's working tree (never in /repo); `run` does the same and points the
+checks at the copy with VERIF_REPO, or, with --in-repo, applies the patch to /repo itself (git apply) and always
+undoes it (git checkout -- .) afterwards.
 """
 import json
 import os
@@ -58,27 +59,46 @@ def verify(d):
         shutil.rmtree(tmp, ignore_errors=True)
 
 
-def run(ids, d, tier='quick'):
-    st = sh(['git', '-C', '/repo', 'status', '--porcelain', '--untracked-files=no']).stdout.decode().strip()
-    if st:
-        print('refusing: /repo has local changes:\n' + st)
-        return 2
-    r = sh(['git', '-C', '/repo', 'apply', os.path.abspath(os.path.join(d, 'patch.diff'))])
+def run(ids, d, tier='quick', in_repo=False):
+    """Default: apply the patch to a throw-away copy of /repo's working tree and point the checks at it with
+    VERIF_REPO (safe while other runs use /repo).  --in-repo: git apply to /repo itself, run, git checkout -- ."""
+    tmp = None
+    env = dict(os.environ)
+    if in_repo:
+        st = sh(['git', '-C', '/repo', 'status', '--porcelain', '--untracked-files=no']).stdout.decode().strip()
+        if st:
+            print('refusing: /repo has local changes:\n' + st)
+            return 2
+        r = sh(['git', '-C', '/repo', 'apply', os.path.abspath(os.path.join(d, 'patch.diff'))])
+    else:
+        tmp = tempfile.mkdtemp(prefix='seedr-')
+        dst = os.path.join(tmp, 'repo')
+        shutil.copytree('/repo', dst, ignore=shutil.ignore_patterns('.git', '__pycache__', 'doc', '*.egg-info'))
+        r = sh(['patch', '-p1', '-i', os.path.abspath(os.path.join(d, 'patch.diff'))], cwd=dst)
+        env['VERIF_REPO'] = dst
     if r.returncode:
-        print('git apply failed', r.stdout.decode()[-500:])
+        print('applying the patch failed', r.stdout.decode()[-500:])
+        if tmp:
+            shutil.rmtree(tmp, ignore_errors=True)
         return 2
     rcs = []
+    rep = tempfile.mkdtemp(prefix='seedrep-')
+    env['VERIF_EVIDENCE_DIR'] = os.path.join(rep, 'evidence')
+    env['VERIF_REPLAY_DIR'] = os.path.join(rep, 'replays')
     try:
         for pid in ids.split(','):
-            r = sh([os.path.join(HERE, 'check'), pid, '--tier', tier], cwd=HERE)
+            r = sh([os.path.join(HERE, 'check'), pid, '--tier', tier], cwd=HERE, env=env)
             out = r.stdout.decode(errors='replace')
             print('%s exit=%d' % (pid, r.returncode))
             for l in [l for l in out.splitlines() if l.startswith(('FAIL', 'VIOLATION', 'HARNESS', 'REGRESSION', pid))][:8]:
                 print('   ', l[:300])
             rcs.append(r.returncode)
     finally:
-        sh(['git', '-C', '/repo', 'checkout', '--', '.'])
-        shutil.rmtree(os.path.join(HERE, 'replays'), ignore_errors=True)
+        if in_repo:
+            sh(['git', '-C', '/repo', 'checkout', '--', '.'])
+        if tmp:
+            shutil.rmtree(tmp, ignore_errors=True)
+        shutil.rmtree(rep, ignore_errors=True)
     return 0 if all(rc == 1 for rc in rcs) else 1
 
 
@@ -88,4 +108,4 @@ if __name__ == '__main__':
     tier = 'quick'
     if '--tier' in sys.argv:
         tier = sys.argv[sys.argv.index('--tier') + 1]
-    sys.exit(run(sys.argv[2], sys.argv[3], tier))
+    sys.exit(run(sys.argv[2], sys.argv[3], tier, in_repo='--in-repo' in sys.argv))
